@@ -163,6 +163,12 @@ func (t *ActiveTable) Delete(ctx context.Context, req *regattapb.DeleteRangeRequ
 }
 
 func (t *ActiveTable) Txn(ctx context.Context, req *regattapb.TxnRequest) (*regattapb.TxnResponse, error) {
+	if err := validateTxnOps(req.Success); err != nil {
+		return nil, err
+	}
+	if err := validateTxnOps(req.Failure); err != nil {
+		return nil, err
+	}
 	// Do not propose read-only transactions through the log
 	if req.IsReadonly() {
 		return readTable[*regattapb.TxnResponse](t, ctx, true, req)
@@ -195,6 +201,26 @@ func (t *ActiveTable) Txn(ctx context.Context, req *regattapb.TxnRequest) (*rega
 		Responses: txr.Responses,
 		Header:    &regattapb.ResponseHeader{Revision: txr.Revision},
 	}, nil
+}
+
+// validateTxnOps applies the limits of Put to the puts nested in a transaction.
+func validateTxnOps(ops []*regattapb.RequestOp) error {
+	for _, op := range ops {
+		put := op.GetRequestPut()
+		if put == nil {
+			continue
+		}
+		if len(put.Key) == 0 {
+			return serrors.ErrEmptyKey
+		}
+		if len(put.Key) > key.LatestVersionLen {
+			return serrors.ErrKeyLengthExceeded
+		}
+		if len(put.Value) > MaxValueLen {
+			return serrors.ErrValueLengthExceeded
+		}
+	}
+	return nil
 }
 
 // Iterator returns open pebble.Iterator it is an API consumer responsibility to close it.
